@@ -244,8 +244,8 @@ Definition spec_plugged (ac0 ac : kf bool) (st : kf kstatus) : option bool :=
 Definition spec_battery (b : kbat) (ac0 ac : kf bool) : option battery :=
   let percent :=
     match spec_salt (kb_full b), spec_salt (kb_now b) with
-    | Some f, Some n => Some (if f =? 0 then 0%Q else (100 * inject_Z n / inject_Z f)%Q)
-    | _, _ => match kb_capacity b with Present ds => Some (inject_Z (dec_val ds)) | _ => None end
+    | Some f, Some n => Some (RFloat (if f =? 0 then 0%Q else (100 * inject_Z n / inject_Z f)%Q))
+    | _, _ => match kb_capacity b with Present ds => Some (RInt (dec_val ds)) | _ => None end
     end in
   match percent with
   | None => None
@@ -253,11 +253,11 @@ Definition spec_battery (b : kbat) (ac0 ac : kf bool) : option battery :=
     let plugged := spec_plugged ac0 ac (kb_status b) in
     let secs :=
       match plugged with
-      | Some true => POWER_TIME_UNLIMITED
+      | Some true => RUnlimited
       | _ =>
         match spec_salt (kb_now b), spec_salt (kb_power b) with
-        | Some n, Some w => if w =? 0 then POWER_TIME_UNKNOWN else Z.quot (n * 3600) (Z.abs w)
-        | _, _ => POWER_TIME_UNKNOWN
+        | Some n, Some w => if w =? 0 then RUnknown else RSecs (Z.quot (n * 3600) (Z.abs w))
+        | _, _ => RUnknown
         end
       end in
     Some {| bt_percent := p; bt_secsleft := secs; bt_plugged := plugged |}
